@@ -792,7 +792,8 @@ impl Check for C10 {
         judge_all(&mut r, fam, c, ss);
         r.stat("families_x_contexts", if ss.first().is_some_and(|n| *n <= 1100) { 1 } else { 0 });
         if idx % 37 == 0 {
-            r.sample(json!({"family": fam.name, "context": c, "sizes": ss.len(), "largest": ss.last()}));
+            let case = (fam.build)(3);
+            r.sample(json!({"family": fam.name, "context": c, "sizes_run": ss, "member_n3_source": program(&case, c).replace(HELPERS, "/* helpers H, HS, id, cnt, mkArr */"), "member_n3_expected": expected(&case, c)}));
         }
         r
     }
